@@ -265,7 +265,10 @@ class XPathNode:
         if self.children:
             for c in self.children:
                 if isinstance(child, ElementNode):
-                    if c.name == child.name:
+                    if isinstance(c, ElementNode) and c.name == child.name:
+                        pos += 1
+                elif isinstance(child, ProcessingInstructionNode):
+                    if isinstance(c, ProcessingInstructionNode) and c.name == child.name:
                         pos += 1
                 elif isinstance(c, child.__class__):
                     pos += 1
